@@ -1,6 +1,6 @@
 //! Scenario generator over the `World` (real server + job layer + real workers) and the textual views
 //! of one run: the job view (component `job`), later the core view and the worker view.
-use std::collections::BTreeMap;
+use std::collections::{BTreeMap, BTreeSet};
 
 use hyperqueue::client::status::Status;
 use hyperqueue::common::arraydef::{IntArray, IntRange};
@@ -743,7 +743,7 @@ impl Sim {
             Some(ToClientMessage::ForgetJobResponse(r)) => {
                 self.job.lines.push(format!("out resp forget {} {}", r.forgotten, r.ignored));
             }
-            Some(ToClientMessage::Finished) => {} // waiting submit: the response arrives after the journal flush
+            Some(ToClientMessage::Finished) => {} // waiting submit (the response arrives after the journal flush) / prune
             other => self.job.lines.push(format!("out resp !unexpected {other:?}").replace('\n', " ")),
         }
         if let Some((j, max_before, count, existing)) = auto {
@@ -988,6 +988,40 @@ impl Sim {
             let r = self.world.schedule();
             let snap = self.world.server.core_snapshot();
             println!("round {i}: {:?} tasks: {:?}", r, snap.tasks.iter().map(|t| format!("{} {:?}", tid(t.id), t.state)).collect::<Vec<_>>());
+        }
+    }
+
+    /// `hq journal prune` through the real rpc loop: `handle_prune_journal` computes the live sets from the job-layer
+    /// state; C12's theorems assume they cover everything the journal still needs (`LiveCovers`): every job without a
+    /// `JobCompleted` record and every connected worker
+    pub fn act_prune(&mut self) {
+        let n_before = self.world.prunes.borrow().len();
+        self.client_action("prune".to_string(), FromClientMessage::PruneJournal);
+        let prunes = self.world.prunes.borrow().clone();
+        for (n, lj, lw) in prunes.iter().skip(n_before) {
+            let evs = self.world.journal.borrow();
+            let mut jobs: BTreeSet<u32> = BTreeSet::new();
+            let mut workers: BTreeSet<u32> = BTreeSet::new();
+            for e in evs.iter().take(*n) {
+                match &e.payload {
+                    EventPayload::Submit { job_id, closed_job: true, .. } => { jobs.insert(job_id.as_num()); }
+                    EventPayload::JobOpen(j, _) => { jobs.insert(j.as_num()); }
+                    EventPayload::JobCompleted(j) => { jobs.remove(&j.as_num()); }
+                    EventPayload::WorkerConnected(w, _) => { workers.insert(w.as_num()); }
+                    EventPayload::WorkerLost(w, _) => { workers.remove(&w.as_num()); }
+                    _ => {}
+                }
+            }
+            // a forgotten job is gone from the server (its records may go)
+            let known: Vec<u32> = snapshot_jobs(&self.world.state_ref).iter().map(|j| j.id).collect();
+            let missing: Vec<u32> = jobs.iter().copied().filter(|j| !lj.contains(j) && known.contains(j)).collect();
+            if !missing.is_empty() {
+                self.job.lines.push(format!("mon FAIL c12.live_sets live-job-not-kept the prune request names live jobs {:?} but jobs {:?} have no JobCompleted record and are still stored", lj, missing));
+            }
+            let missing_w: Vec<u32> = workers.iter().copied().filter(|w| !lw.contains(w)).collect();
+            if !missing_w.is_empty() {
+                self.job.lines.push(format!("mon FAIL c12.live_sets connected-worker-not-kept the prune request names live workers {:?} but workers {:?} are connected", lw, missing_w));
+            }
         }
     }
 
@@ -1502,6 +1536,10 @@ impl Sim {
             return;
         }
         if self.rng.chance(1, 12) && self.act_directed_submit() {
+            return;
+        }
+        if self.wait_mode && self.rng.chance(1, 15) {
+            self.act_prune();
             return;
         }
         let nworkers = self.world.workers.len() as u64;
